@@ -9,7 +9,11 @@ import SuxModel.Func.BuildLoop
 See `harness/src/run_func.rs` for the protocol.  `build` lines are answered by the `build_loop`
 model (`BuildLoop.lean`) run on lenders constructed from the fault plan of the line; the
 configuration knobs (`off lm th eps lb hint seed`, key and value types) are parsed and ignored:
-they do not occur in what the model predicts.  `parts` stores the exported certificate; every
+they do not occur in what the model predicts.  `dups` is the `check_dups` flag of the model's
+`build_loop`; the `dd` field (duplicated keys) decides what the model's `try_seed` answers: a key
+whose multiplicity exceeds `1.01 · n / shards` makes every attempt `MaxShardTooBig`
+(`heavyForced`; reply and attempt count then come from the D34 arm of `BL.step`), other
+duplicates under `check_dups` make every attempt `DuplicateSignature`.  `parts` stores the exported certificate; every
 `get` / `contains` is then evaluated from the exported cells with the model's own edge computation.
 `solve <mode> <list>` re-solves an unsharded function instance with the peeler the real build used
 (`idx` = `peel_by_index` under `lge_shard`, `high` / `low` = the signature peelers of
@@ -58,6 +62,39 @@ def fmtRes (take : Bool) : BL.Res Nat → String
   | .panic => "panic"
   | .outOfFuel => "timeout"
 
+/-- `dd=` field: `-` or `dst>src,dst>src,…` (`keys[dst] := keys[src]`, applied in order) -/
+def parseDD (s : String) : Option (List (Nat × Nat)) :=
+  if s == "-" then some []
+  else (s.splitOn ",").mapM (fun p =>
+    match p.splitOn ">" with
+    | [a, b] => match a.toNat?, b.toNat? with
+      | some a, some b => some (a, b)
+      | _, _ => none
+    | _ => none)
+
+/-- multiplicity of the most frequent key after the `dd` assignments on `n` distinct keys -/
+def maxMultiplicity (n : Nat) (dd : List (Nat × Nat)) : Nat :=
+  let ids := dd.foldl (fun (ids : Array Nat) (p : Nat × Nat) =>
+    if p.1 < ids.size && p.2 < ids.size then ids.setIfInBounds p.1 (ids.getD p.2 0) else ids)
+    (Array.range n)
+  let cnt := ids.foldl (fun (c : Array Nat) i => c.setIfInBounds i (c.getD i 0 + 1))
+    (Array.replicate n 0)
+  cnt.foldl max 0
+
+/-- number of shards `try_seed` uses for `n` keys, when it does not depend on floating point
+    (`n ≤ MAX_LIN_SIZE`, or a logic without shards) -/
+def shardsFor (lg : String) (n : Nat) : Option Nat :=
+  if lg == "noshards" then some 1
+  else if n ≤ Gen.maxLinSize then some (1 <<< (({} : SE).setUpShards (fun _ => 0) n).shardHighBits)
+  else none
+
+/-- one key has so many copies that its shard exceeds `1.01 · n / shards` whatever the seed
+    (`BL.heavy_key_shard`): `try_seed` answers `MaxShardTooBig` on every attempt -/
+def heavyForced (lg : String) (n : Nat) (dd : List (Nat × Nat)) : Bool :=
+  match shardsFor lg n with
+  | some sh => decide (Gen.maxShardSlackNum * n < Gen.maxShardSlackDen * maxMultiplicity n dd * sh)
+  | none => false
+
 def doBuild (take : Bool) (kind : String) (toks : List String) : Option (RSt × String) := do
   let filter ← (if kind == "func" then some false else if kind == "filter" then some true else none)
   let w ← tok toks "w"
@@ -68,7 +105,12 @@ def doBuild (take : Bool) (kind : String) (toks : List String) : Option (RSt × 
   let hashBits := if bfv then (fbS.toNat?.getD W) else W
   let n ← (← tok toks "n").toNat?
   let dups := (← tok toks "dups") == "1"
-  let hasDup := (← tok toks "dd") != "-"
+  let ddS ← tok toks "dd"
+  let hasDup := ddS != "-"
+  let dd ← parseDD ddS
+  let lg ← tok toks "lg"
+  -- D34: a key heavy enough to make the maximum shard too big for every seed
+  let forced := hasDup && heavyForced lg n dd
   let short := (← tok toks "short") == "1"
   let (kf, vf, rk, rv) ← parseFault (← tok toks "fault")
   let att := ((← tok toks "att").toNat?).getD 1
@@ -76,15 +118,16 @@ def doBuild (take : Bool) (kind : String) (toks : List String) : Option (RSt × 
   let vals : Option (BL.Lender Nat) :=
     if filter then none else some (BL.vecLender (if short then n - 1 else n) vf rv)
   let solve : Nat → List (Nat × Nat) → BL.Attempt Nat := fun a items =>
-    if hasDup && dups then .solveErr .dupSig
+    if forced then .solveErr .maxShardTooBig
+    else if hasDup && dups then .solveErr .dupSig
     else if items.isEmpty then .ok 0
     else if a + 1 < att then .solveErr .unsolvable
     else .ok items.length
-  let S : BL.Sys Nat Nat Nat := { keys := keys, vals := vals, solve := solve }
+  let S : BL.Sys Nat Nat Nat := { keys := keys, vals := vals, checkDups := dups, solve := solve }
   -- `try_build_filter(keys, filter_bits, pl)` of the bit-field back-end starts with
   -- `assert!(filter_bits > 0); assert!(filter_bits <= W::BITS)`
   if filter && bfv && (hashBits = 0 || hashBits > W) then some ({}, "panic") else
-  let (r, k) := BL.build S (att + 10)
+  let (r, k) := BL.build S (att + 10 + Gen.maxShardTooBigRetries)
   let st : RSt := match r with
     | .ok f => { built := true, filter := filter, bfv := bfv, W := W, hashBits := hashBits, nKeys := f, attempts := k }
     | _ => { attempts := k }
